@@ -15,6 +15,57 @@ import (
 // render <sym> <level> <kanji> <quiet> <snum> <sden> <width> <hexpayload>
 //   -> ok <W> <H> <bw> <bh> <hex of 8-bit red channel, row major> | <bitmap of EncodeToBitmap>
 func init() {
+	// the same with NO options at all: the documented defaults (module size 1, quiet zone 4 / 4 / 2)
+	ops["render.default"] = func(a []string) string {
+		p := parseHex(a[1])
+		var img image.Image
+		var bmp string
+		var err error
+		switch a[0] {
+		case "qr":
+			var d *qrcode.QRCode
+			if d, err = qrcode.New(p); err == nil {
+				if b, e2 := d.EncodeToBitmap(); e2 == nil {
+					bmp = showGImage(b)
+				}
+				img, err = qrcode.Encode(p)
+			}
+		case "mq":
+			var d *microqr.QRCode
+			if d, err = microqr.New(p); err == nil {
+				if b, e2 := d.EncodeToBitmap(); e2 == nil {
+					bmp = showGImage(b)
+				}
+				img, err = microqr.Encode(p)
+			}
+		case "rm":
+			var d *rmqr.QRCode
+			if d, err = rmqr.New(p); err == nil {
+				if b, e2 := d.EncodeToBitmap(); e2 == nil {
+					bmp = showGImage(b)
+				}
+				img, err = rmqr.Encode(p)
+			}
+		default:
+			panic("harness: bad symbology")
+		}
+		if err != nil {
+			return "err " + err.Error()
+		}
+		b := img.Bounds()
+		pix := make([]byte, 0, b.Dx()*b.Dy())
+		gray := true
+		for y := b.Min.Y; y < b.Max.Y; y++ {
+			for x := b.Min.X; x < b.Max.X; x++ {
+				r, g, bb, al := img.At(x, y).RGBA()
+				if r != g || g != bb || al != 0xffff {
+					gray = false
+				}
+				pix = append(pix, byte(r>>8))
+			}
+		}
+		return fmt.Sprintf("ok %d %d %v %s | %s", b.Dx(), b.Dy(), gray, hex.EncodeToString(pix), bmp)
+	}
 	ops["render"] = func(a []string) string {
 		level, kanji, q := atoi(a[1]), a[2] == "1", atoi(a[3])
 		s := float64(atoi(a[4])) / float64(atoi(a[5]))
